@@ -25,6 +25,9 @@ def check(ctx):
     ctx.rule("C02-H", "a side-by-side table fits: the shrink loop exits only when Σ column widths + (n − 1) separators <= "
              "renderer width, counting every column (the count into_cells uses for a spanning cell)")
     ctx.rule("C02-G", "footnote wrapping compares against self.width under wrap_links")
+    ctx.rule("C02-I", "a node kind that starts a line of its own (<br>) is estimated at min_width >= 1, so that width_minus "
+             "refuses a block whose marker leaves no column for it")
+    ctx.guard("C02-I", widths.rule_line_emitters_need_a_column, "C02-I")
     ctx.guard("C02-A", widths.rule_wrap_width, "C02-A")
     ctx.guard("C02-B", widths.rule_sub_widths, "C02-B")
     ctx.guard("C02-C", widths.rule_width_minus_def, "C02-C")
